@@ -102,6 +102,17 @@ def main():
             except BaseException as e:
                 res["errors"].append([tag, n, type(e).__name__, str(e)[:200], traceback.format_exc()[-600:]])
 
+    if c.get("block"):
+        # a dependency that is missing in this process: importing it raises (so the importing module's body raises at import)
+        blocked = set(c["block"])
+
+        class Blocker:
+            @staticmethod
+            def find_spec(name, path=None, target=None):
+                if name in blocked:
+                    raise ImportError("blocked: " + name)
+                return None
+        sys.meta_path.insert(0, Blocker)
     if c.get("drop_uid") and os.getuid() == 0:
         # a read-only cache directory means nothing to root: continue as an unprivileged user (everything this process
         # still needs from the interpreter's own directories is imported by now)
